@@ -94,11 +94,24 @@ TrShuffle  == /\ Ev.op = "shuffle" /\ Ev.out = "ok" /\ UNCHANGED vars
 TrMoveSat == /\ Ev.op = "move_sat" /\ Ev.out = "ok" /\ UNCHANGED vars
              /\ \A ax \in 1..3 : Ev.res[ax] = CASE Ev.dirs[ax] = 1 -> "hi" [] Ev.dirs[ax] = -1 -> "lo" [] OTHER -> "same"
 
+\* growth beyond the listed properties (exercised by `./check drift` only) ---------------------------------------------
+\* get_dimensions(): the extents, cut to the dimensionality of the world class
+TrDims == /\ Ev.op = "dims" /\ Ev.out = "ok" /\ UNCHANGED vars
+          /\ LET e == world[Ev.m].ext IN
+             Ev.res = CASE Ev.cls = "line" -> <<e[1]>> [] Ev.cls = "grid2d" -> <<e[1], e[2]>> [] OTHER -> <<e[1], e[2], e[3]>>
+\* distance_sqr of two positioned agents (in squared units), symmetric; PositionComponent accessors
+TrGeom == /\ Ev.op = "geom" /\ Ev.out = "ok" /\ UNCHANGED vars
+          /\ Ev.a \in DOMAIN pos /\ Ev.b \in DOMAIN pos
+          /\ LET p == pos[Ev.a]  q == pos[Ev.b]
+                 d2 == (p[1] - q[1]) * (p[1] - q[1]) + (p[2] - q[2]) * (p[2] - q[2]) + (p[3] - q[3]) * (p[3] - q[3])
+             IN /\ Ev.d2ab = d2 /\ Ev.d2ba = d2
+                /\ Ev.xy = <<p[1], p[2]>> /\ Ev.xz = <<p[1], p[3]>> /\ Ev.yz = <<p[2], p[3]>> /\ Ev.xyz = p /\ Ev.getpos = p
+
 TraceInit == /\ Init /\ tid \in 1..Len(Traces) /\ l = 1
 
 TraceNext == /\ l <= Len(Traces[tid]) /\ l' = l + 1 /\ UNCHANGED tid
              /\ (TrNewModel \/ TrNewAgent \/ TrJoin \/ TrLeave \/ TrAttach \/ TrDetach \/ TrRegister \/ TrLookup
-                 \/ TrMove \/ TrMoveTo \/ TrMoveSat \/ TrAgentsAt \/ TrGetAgents \/ TrPick \/ TrShuffle)
+                 \/ TrMove \/ TrMoveTo \/ TrMoveSat \/ TrDims \/ TrGeom \/ TrAgentsAt \/ TrGetAgents \/ TrPick \/ TrShuffle)
              /\ ObsOK(Ev.obs, world', agents', env', pool', pos')
 
 TraceSpec == TraceInit /\ [][TraceNext]_tvars
